@@ -1084,12 +1084,18 @@ func (h *backendHandler) pingpong(st *rpcState, obs *BackendObs, rw http.Respons
 	_ = md
 	split := st.plan.Backend.SplitReader
 	readerDone := !split
+	var readerTok hbToken
 	if split {
 		w.Spawn(st.name+".hreader", func() {
-			defer func() { readerDone = true }()
-			rd.readAll()
+			defer func() { readerTok.release(); readerDone = true }()
+			for rd.readSome() {
+				readerTok.release() // each message is handed to the writer through a channel in a real handler
+			}
 		})
-		defer w.Block("handler.join", func() bool { return readerDone })
+		defer func() {
+			w.Block("handler.join", func() bool { return readerDone })
+			readerTok.acquire()
+		}()
 	}
 	for {
 		// read until one more complete frame is available or the body ends
@@ -1102,6 +1108,7 @@ func (h *backendHandler) pingpong(st *rpcState, obs *BackendObs, rw http.Respons
 				if !w.Block("hwriter.await-ping", func() bool { fr, _ := splitFrames(obs.Body); return len(fr) > sent || rd.done }) {
 					break
 				}
+				readerTok.acquire()
 				continue
 			}
 			rd.readSome()
@@ -1114,6 +1121,7 @@ func (h *backendHandler) pingpong(st *rpcState, obs *BackendObs, rw http.Respons
 			// nothing more to say; drain
 			if split {
 				w.Block("hwriter.drain", func() bool { return rd.done })
+				readerTok.acquire()
 			} else {
 				rd.readAll()
 			}
@@ -1171,12 +1179,13 @@ func (h *backendHandler) pingpong(st *rpcState, obs *BackendObs, rw http.Respons
 func (h *backendHandler) duplex(st *rpcState, obs *BackendObs, rw http.ResponseWriter, rd *reqReader) {
 	w := st.world
 	readerDone, writerDone := false, false
+	var readerTok, writerTok hbToken // what a WaitGroup / channel gives a real handler that joins its goroutines
 	w.Spawn(st.name+".hreader", func() {
-		defer func() { readerDone = true }()
+		defer func() { readerTok.release(); readerDone = true }()
 		rd.readAll()
 	})
 	w.Spawn(st.name+".hwriter", func() {
-		defer func() { writerDone = true }()
+		defer func() { writerTok.release(); writerDone = true }()
 		defer func() {
 			if r := recover(); r != nil {
 				if _, ok := r.(simPanic); !ok {
@@ -1197,6 +1206,7 @@ func (h *backendHandler) duplex(st *rpcState, obs *BackendObs, rw http.ResponseW
 		h.writeBody(st, obs, rw, body, rr)
 		obs.SentMsgs = rr.nmsgs
 		w.Block("hwriter.await-reader", func() bool { return readerDone })
+		readerTok.acquire()
 		h.decodeRequest(obs)
 		var override *ErrSpec
 		if len(obs.Undecodable) > 0 && !st.plan.Backend.Lenient {
@@ -1217,6 +1227,8 @@ func (h *backendHandler) duplex(st *rpcState, obs *BackendObs, rw http.ResponseW
 		obs.Responded = true
 	})
 	w.Block("handler.join", func() bool { return readerDone && writerDone })
+	readerTok.acquire()
+	writerTok.acquire()
 }
 
 var _ = protoreflect.Name("")
